@@ -112,3 +112,41 @@ def run_and_judge(rep, prop, prop_file, cases, tier, seed, judge=judge_rt, extra
                        "rerun": "printf 'E <env>\\n<case>\\n' > f && .cache/target/release/dharness codec f"})
     C.report_broken(rep, ob, dis, stream, bool(bad))
     return ob, impl, mod, bad, dis
+
+
+# ------------------------------------------------------------------------------------------
+# static route blocks (the real derive macro)
+
+def static_block(harness, model, wd, cases, env, tag, judge):
+    """runs static cases, returns (bad, dis, lines) where bad = property failures on the implementation,
+    dis = model/implementation disagreements"""
+    from . import catalogue as K
+    impl, mod, hl = K.run_static(harness, model, env, cases, wd, tag)
+    dis = [(l, a, b) for l, a, b in zip(hl, impl, mod) if a != b]
+    bad = []
+    for c, l, a in zip(cases, hl, impl):
+        ok, why = judge(c, a)
+        if not ok:
+            bad.append((l, a, why))
+    return bad, dis, hl, impl
+
+
+def judge_static_rt(env):
+    def j(c, line):
+        if "panic" in line.split(" ")[0] or " ; panic" in line:
+            return False, "panic"
+        enc_part, _, dec_part = line.partition(" ; ")
+        t = ("named", c["w"])
+        if enc_part.startswith("err"):
+            if sx.contains_unencodable_char(t, sx.parse(c["val"]), env) or enc_part.startswith("err SerTransientCtor"):
+                return True, "unencodable"
+            return False, "encode failed: " + enc_part
+        if not dec_part.startswith("ok "):
+            return False, "decode failed: " + dec_part
+        val, _, rest = dec_part[3:].rpartition(" ")
+        if val != sx.expect_decoded(t, c["val"], env):
+            return False, "decoded value differs"
+        if int(rest) != (0 if c["sfx"] == "-" else len(c["sfx"]) // 2):
+            return False, "bytes left differ from the suffix"
+        return True, "ok"
+    return j
